@@ -147,6 +147,8 @@ def make(topology='chain', hier='flat', kinds=None, partials='dense', palette=0,
             pat = None
             if sparse:
                 pat = (np.add.outer(np.arange(m), np.arange(n)) % 2 == 0) | np.eye(m, n, dtype=bool)
+            if comp['partials'] == 'diag' and m == n:
+                pat = np.eye(m, dtype=bool)
             comp['inputs'].append({'name': iname, 'shape': ishape,
                                    'units': units.get('%s.%s' % (c, iname))})
             comp['A']['y|' + iname] = ir.gen_matrix(m, n, 2 + ci * 3 + k, palette, scale, pat)
